@@ -199,6 +199,13 @@ LazyPromise ==
     LazyOnly(rel) => /\ \A i \in DOMAIN c.ex : c.ex[i] = 0 /\ cm.ex[i] = 0
                      /\ \A i \in DOMAIN c.it : c.it[i] <= occ[i] /\ cm.it[i] <= occ[i]
 
+\* whatever consumes its input at execute time (sort, deduplication, materialization, extension
+\* operations) does so at most once: execute() never starts more iterations of a leaf payload than
+\* the leaf has occurrences in the tree
+ExecOnce ==
+    LET c == Cost(rel)  cm == CostM(rel)  occ == Occ(rel) IN
+    \A i \in DOMAIN c.ex : c.ex[i] <= occ[i] /\ cm.ex[i] <= occ[i]
+
 \* the documented no-op calls return the relation itself
 IsNoOpCall(c, r) ==
     CASE c.f = "un"   -> IsNoOp(c.op, Cols(r))
